@@ -13,6 +13,8 @@ var probeSet = "a,b,c"
 
 var nestedDirs = []string{"team/", "team/x/", "old/"}
 
+var hiddenNames = []string{".gitkeep", "..data", ".hidden/x.yaml", "zz/.keep", "team/.gitkeep"}
+
 type tree map[string]string // logical -> token
 
 func (t tree) line() string {
@@ -69,6 +71,17 @@ func genTree(r *prng.R) tree {
 	}
 	if r.Chance(20) {
 		t["f/"+prng.Pick(r, nestedDirs)+"z.yaml"] = fmt.Sprintf("v%d", r.Range(1, 3))
+	}
+	// hidden files and directories (.gitkeep, the ..data of a mounted volume, .hidden/x.yaml): the loaders
+	// ignore them, clean-up / backup / restore treat them like any other file. Dot names sort before the
+	// ordinary ones in a directory walk; `zz/.keep` comes after them.
+	if r.Chance(35) {
+		dir := prng.Pick(r, []string{"f/", "q/", "p/"})
+		t[dir+prng.Pick(r, hiddenNames)] = prng.Pick(r, []string{"xkeep", "empty", "xdata"})
+		if r.Chance(40) {
+			dir2 := prng.Pick(r, []string{"f/", "q/", "p/"})
+			t[dir2+prng.Pick(r, hiddenNames)] = "xkeep"
+		}
 	}
 	return t
 }
